@@ -1,9 +1,44 @@
 # -*- coding: utf-8 -*-
 
+import copy
+
+import numpy
 import dill as pickle
 
     
 from .managers import Manager
+from .managers import BasisManaged
+
+
+class _RootBasisPickler(pickle.Pickler):
+    """Pickler which stores basis managed objects in the basis used outside 
+    of all basis contexts
+    
+    An object which is saved while it is represented in the basis of an 
+    active `eigenbasis_of` context would otherwise carry the data and the 
+    basis id of a context which does not exist when the object is loaded.
+    The original object is left untouched; a copy transformed back to 
+    the basis with id 0 is pickled instead.
+    
+    """
+    
+    def reducer_override(self, obj):
+        
+        if isinstance(obj, BasisManaged) and (not obj.is_basis_protected):
+            man = Manager()
+            ob = obj.get_current_basis()
+            if (ob != 0) and (ob in man.basis_stack):
+                # transformation from the root basis to the basis `ob`
+                SS = numpy.eye(obj.dim)
+                for kk in range(1, man.basis_stack.index(ob)+1):
+                    SS = numpy.dot(SS, man.basis_transformations[kk])
+                cp = copy.deepcopy(obj)
+                cp.transform(numpy.linalg.inv(SS), inv=SS)
+                cp.set_current_basis(0)
+                return cp.__reduce_ex__(self.proto)
+            
+        return NotImplemented
+
 
 class Parcel:
     
@@ -40,9 +75,9 @@ class Parcel:
         """
         if isinstance(filename, str):
             with open(filename, "wb") as f:
-                pickle.dump(self, f)
+                _RootBasisPickler(f).dump(self)
         else:
-            pickle.dump(self, filename)
+            _RootBasisPickler(filename).dump(self)
 
       
 def save_parcel(obj, filename, comment=None):
